@@ -94,8 +94,12 @@ def cases(tier, seed):
         # targets carrying batch dimensions the inputs and the model do not have (data broadcast against each other)
         for pb, db, yb in (([], [], [2]), ([], [], [3, 2]), ([2], [], [3, 2]), ([], [2], [3, 2]), ([2], [2], [3, 2])):
             yield {"kind": "exact", "pbatch": pb, "dbatch": db, "ybatch": yb, "seed": rnd.randrange(10**6)}
-        for members in ([4, 4], [3, 7], [5, 2, 9]):
+        for members in ([4, 4], [3, 7], [5, 2, 9], [3, 4, 5, 6, 3, 4, 5, 6, 3, 4, 5, 7], [2] * 23):
+            # (also more than ten members: two-digit positions)
             yield {"kind": "modellist", "members": members, "seed": rnd.randrange(10**6)}
+        # inducing-point (SGPR) kernels in batch mode with very different signal variances per element
+        for pb_, zb_ in (([3], "batch"), ([3], "none"), ([2, 3], "batch")):
+            yield {"kind": "sgpr_kernel", "pbatch": pb_, "zbatch": zb_, "seed": rnd.randrange(10**6)}
 
 
 def _sl(t, tb, b, full):
@@ -120,7 +124,7 @@ def run_case(case, ctx):
     from vf import util
 
     g = util.gen(case["seed"])
-    return {"kernel": _kernel, "mean": _mean, "lik": _lik, "exact": _exact, "svgp": _svgp, "svgp_step": _svgp_step, "indep_mt": _indep_mt, "vnngp": _vnngp, "shared_modules": _shared_modules, "modellist": _modellist}[case["kind"]](case, ctx, g)
+    return {"kernel": _kernel, "mean": _mean, "lik": _lik, "exact": _exact, "svgp": _svgp, "svgp_step": _svgp_step, "indep_mt": _indep_mt, "vnngp": _vnngp, "shared_modules": _shared_modules, "modellist": _modellist, "sgpr_kernel": _sgpr_kernel}[case["kind"]](case, ctx, g)
 
 
 def _ex(t, full, *rest):
@@ -721,6 +725,51 @@ def _shared_modules(case, ctx, g):
     ctx.cell({k: v for k, v in case.items() if k != "seed"})
 
 
+def _sgpr_kernel(case, ctx, g):
+    """a batch of inducing-point kernels (SGPR) whose elements have signal variances orders of magnitude apart: each element's
+    training-mode and evaluation-mode matrices are those of the replica holding the b-th slice of parameters and inducing points"""
+    import torch
+
+    import gpytorch
+    from vf import util
+
+    K = gpytorch.kernels
+    pb = case["pbatch"]
+    full = list(pb)
+    zb = pb if case["zbatch"] == "batch" else []
+    n, M_ = 7, 4
+    X = util.randn(g, n, D)
+    Z = util.randn(g, *zb, M_, D)
+
+    def mk(b_, Z_):
+        bs = torch.Size(b_)
+        lik = gpytorch.likelihoods.GaussianLikelihood(batch_shape=bs)
+        return K.InducingPointKernel(K.ScaleKernel(K.RBFKernel(batch_shape=bs), batch_shape=bs), inducing_points=Z_.clone(), likelihood=lik)
+
+    k = mk(pb, Z)
+    util.randomize(k, g, 0.3)
+    with torch.no_grad():
+        sc = torch.tensor([0.5, 50.0, 5000.0])[: pb[-1]].expand(*pb)
+        k.base_kernel.outputscale = sc * (1 + 0.2 * util.rand(g, *pb))
+    outs = {}
+    with torch.no_grad():
+        for mode in ("train", "eval"):
+            k.train(mode == "train")
+            outs[mode] = k(X).to_dense()
+            outs[mode + "_diag"] = k(X, diag=True)
+    for b in _elements(full):
+        r = mk([], _sl(k.inducing_points.detach(), list(k.inducing_points.shape[:-2]), b, full))
+        _load_slice(k, r, b, full)
+        with torch.no_grad():
+            for mode in ("train", "eval"):
+                r.train(mode == "train")
+                ref = r(X).to_dense()
+                got = _ex(outs[mode], full, n, n)[b]
+                ctx.close("kernel_replica", got, ref, (1e-8 * float(ref.abs().max()), 1e-8), cls=f"sgpr_kernel:{mode}", element=list(b))
+                ctx.close("kernel_replica", _ex(outs[mode + "_diag"], full, n)[b], r(X, diag=True), (1e-8 * float(ref.abs().max()), 1e-8), cls=f"sgpr_kernel:{mode}:diag", element=list(b))
+    ctx.cell(*_cell(case, full))
+
+
 def _modellist(case, ctx, g):
     import torch
 
@@ -742,6 +791,8 @@ def _modellist(case, ctx, g):
             own = mdl(*mdl.train_inputs)
             ctx.expect("model_list_identical", torch.equal(o.mean, own.mean) and torch.equal(o.covariance_matrix, own.covariance_matrix), "IndependentModelList output differs from the member's own output")
             vals.append(gpytorch.mlls.ExactMarginalLogLikelihood(mdl.likelihood, mdl)(own, mdl.train_targets))
+        for i_, (ti_, tt_, mdl) in enumerate(zip(ml.train_inputs, ml.train_targets, models)):
+            ctx.expect("model_list_identical", torch.equal(ti_[0], mdl.train_inputs[0]) and torch.equal(tt_, mdl.train_targets), f"train_inputs / train_targets of the list at position {i_} are not member {i_}'s", member=i_)
         s = gpytorch.mlls.SumMarginalLogLikelihood(ml.likelihood, ml)(outs, ml.train_targets)
         ctx.close("sum_mll_is_mean", s, torch.stack(vals).mean(), "direct", cls="sum_mll", members=case["members"])
         ml.eval()
